@@ -141,3 +141,73 @@ def run(chk):
     padding.rule_sha_padding(chk, cf.PROGRAM[0] or cf.Program())
     from . import twins
     twins.rule_token_agreement(chk, cf.PROGRAM[0] or cf.Program(), 'K1', floor=150)
+    run_h7(chk, cf.PROGRAM[0] or cf.Program())
+
+
+# ---------------------------------------------------------------------------------------------------------------------------
+# H7: bit positions of the 3GPP IV generators (TS 35.201 / 35.215 / 35.221: COUNT, BEARER, DIRECTION, FRESH placement)
+
+IV_SPEC = {
+    # function: {(parameter role, bit position it is shifted to): number of places}
+    'zuc_eea3_iv_gen': {('bearer', 3): 1, ('dir', 2): 1},            # IV[4] = BEARER || DIRECTION || 00
+    'zuc_eia3_iv_gen': {('bearer', 3): 1, ('dir', 7): 2},            # IV[4] = BEARER || 000; IV[8] ^= DIR << 7; IV[14] ^= DIR << 7
+    'snow3g_f8_iv_gen': {('bearer', 27): 1, ('dir', 26): 1},         # BEARER || DIRECTION || 0^26 as a 32-bit word
+    'snow3g_f9_iv_gen': {('dir', 15): 1, ('dir', 31): 1},            # FRESH ^ (DIR << 15), COUNT ^ (DIR << 31)
+    'kasumi_f8_iv_gen': {('bearer', 3): 1, ('dir', 2): 1},           # COUNT || BEARER || DIRECTION || 0..0
+    'kasumi_f9_iv_gen': {},
+}
+IV_WORDS = {'zuc_eea3_iv_gen': {'count'}, 'zuc_eia3_iv_gen': {'count'}, 'snow3g_f8_iv_gen': {'count'},
+            'snow3g_f9_iv_gen': {'count', 'fresh'}, 'kasumi_f8_iv_gen': {'count'}, 'kasumi_f9_iv_gen': {'count', 'fresh'}}
+
+
+def _iv_shifts(f):
+    import collections
+    params = {p['name'] for p in (f.raw.get('params') or [])}
+    shifts = collections.Counter()
+    words = set()
+    seen_nodes = set()
+
+    def visit(x):
+        for nd in cf.walk(x):
+            if id(nd) in seen_nodes:
+                continue
+            seen_nodes.add(id(nd))
+            if nd.get('k') == 'bin' and nd['op'] == '<<':
+                l = cf.strip_casts(nd['l'])
+                k = cf.evalc(nd['r'])
+                if isinstance(l, dict) and l.get('k') == 'ref' and l['n'] in params and k is not None:
+                    shifts[(l['n'], int(k))] += 1
+            elif nd.get('k') == 'cond':
+                c = cf.strip_casts(nd.get('c') or {})
+                t, e = cf.evalc(nd.get('t') or {}), cf.evalc(nd.get('f') or {})
+                if isinstance(c, dict) and c.get('k') == 'ref' and c['n'] in params and t is not None and e == 0 and t > 0 and t & (t - 1) == 0:
+                    shifts[(c['n'], int(t).bit_length() - 1)] += 1      # p ? (1 << k) : 0 for a one-bit p
+            elif nd.get('k') == 'call' and 'bswap' in (nd.get('fn') or ''):
+                for a in nd.get('a', []):
+                    for m in cf.walk(a):
+                        if m.get('k') == 'ref' and m['n'] in params:
+                            words.add(m['n'])
+    for _, _, ev in f.events():
+        if ev['k'] == 'assign':
+            visit(ev.get('rhs') or {})
+        elif ev['k'] == 'decl':
+            for d in ev['d']:
+                if d.get('init') is not None:
+                    visit(d['init'])
+    return shifts, words
+
+
+def run_h7(chk, P):
+    h7 = chk.rule('H7', 'the 3GPP IV generators place BEARER and DIRECTION at the bit positions of TS 35.201 / 35.215 / 35.221 and feed COUNT / FRESH '
+                        'whole through the byte swap (shift amounts and the number of places they occur, per generator)', floor=6)
+    for fn, spec in sorted(IV_SPEC.items()):
+        fs = [f for _, f in P.find(fn)]
+        if not fs:
+            chk.broken('%s not found' % fn)
+            continue
+        f = fs[0]
+        shifts, words = _iv_shifts(f)
+        got = {k: v for k, v in shifts.items()}
+        h7.check(got == spec and IV_WORDS[fn] <= words, fn, f.loc,
+                 '%s shifts %s and byte-swaps %s; the specification places %s and needs %s whole' % (
+                     fn, sorted(got.items()), sorted(words), sorted(spec.items()), sorted(IV_WORDS[fn])))
